@@ -559,7 +559,7 @@ void vf_run(vf::Ctx& c)
     // three objects: x = c%3, y = (x+1+(c/3)%2)%3.  Prefix: emplace into objects 0 and 1 (object 2 stays as constructed);
     // shapes: (x=2,y=0), (x=0,y=1 with the "keep the temporary in y" bits set), (x=1,y=0)
     c03::run_pairs(c, {RawOp{0, 0, 0, 9}, RawOp{0, 0, 0, 16}}, {RawOp{0, 0, 1, 2}, RawOp{0, 1, 3, 72}, RawOp{0, 2, 6, 22}});
-    c03::run_histories(c, 9000, 80000, 30);
+    c03::run_histories(c, 6000, 80000, 30);
 }
 
 std::string vf_replay(std::string const&, std::string const& cs)
